@@ -194,6 +194,9 @@ for node_name in it: node_names
         final(self).predecessors@ == old(self).predecessors@,
         // [C01.add_node.wf_estore_preserved]
         old(self).wf_estore() ==> final(self).wf_estore(),
+        // [C02.history.add_node_index_sets_frame]
+        forall|i: usize| #[trigger] final(self).succ_set(i) == old(self).succ_set(i),
+        forall|i: usize| #[trigger] final(self).pred_set(i) == old(self).pred_set(i),
         // [C03.add_node.wf_rows_preserved]
         old(self).wf_rows() ==> final(self).wf_rows(),
         // [C03.add_node.traversal_rows_frame]
@@ -329,6 +332,8 @@ for node_name in it: node_names
         ae_store(*old(self), *edge, *final(self), r),
         // [C03.add_edge.traversal_effect]
         ae_traversal(*old(self), *edge, *final(self), r),
+        // [C02.history.add_edge_index_sets_effect]
+        ae_index(*old(self), *edge, *final(self), r),
 //@ after let edge_already_exists = self.get_edge_by_indexes(u_node_index, v_node_index).is_ok();
         let ghost g1 = *self;
         proof {
@@ -352,6 +357,14 @@ for node_name in it: node_names
         proof {
             // the store changed at the canonical key only: the list there is [ordered] or the old list plus ordered
             lemma_estore_after_store(g2, *self, ordered_edge_u, ordered_edge_v, ordered);
+            // index sets: node creation leaves them as they were (absent = empty); the entry(..).or_default().insert(..) calls add one member each
+            assert forall|i: usize| g1.succ_set(i) == old(self).succ_set(i) && g1.pred_set(i) == old(self).pred_set(i) by {}
+            assert(g1.successors_map@.contains_key(u_node_index) && g1.successors_map@.contains_key(v_node_index));
+            assert(g1.predecessors_map@.contains_key(u_node_index) && g1.predecessors_map@.contains_key(v_node_index));
+            assert forall|i: usize, x: usize| #[trigger] self.succ_set(i).contains(x) ==
+                (g1.succ_set(i).contains(x) || (i == u_node_index && x == v_node_index) || (!self.specs.directed && i == v_node_index && x == u_node_index)) by {}
+            assert forall|i: usize, x: usize| #[trigger] self.pred_set(i).contains(x) ==
+                (g1.pred_set(i).contains(x) || (self.specs.directed && i == v_node_index && x == u_node_index)) by {}
         }
 //@ end
 
